@@ -27,7 +27,9 @@ type URIHdrsLst struct {
 
 // Reset re-initializes the parsed parameter list
 func (l *URIHdrsLst) Reset() {
-	for i := 0; i < l.HNo(); i++ {
+	// reset all the hdrs, not only the first HNo(): Hdrs[N] might contain
+	// a partially parsed header (parsing abandoned while waiting for more bytes)
+	for i := 0; i < len(l.Hdrs); i++ {
 		l.Hdrs[i].Reset()
 	}
 	t := l.Hdrs
